@@ -459,3 +459,68 @@ def strip_cfg_feature(text, feature="print"):
             j += 1
         text = text[:toks[hit].start] + text[toks[j].end:]
         removed += 1
+
+
+# --------------------------------------------------------------------------
+# R23 ALPHA: a function that differs from the annotated shape only by a consistent renaming of local variables (and by
+# whitespace / comments) is verified in the annotated shape.  Sound because alpha-renaming of locals preserves meaning;
+# every test below is conservative: when in doubt the answer is None and the current text is used as it stands.
+# --------------------------------------------------------------------------
+_SNAKE = re.compile(r"^[a-z_][a-z0-9_]*$")
+_RUST_KW = {"as", "break", "const", "continue", "crate", "else", "enum", "extern", "false", "fn", "for", "if", "impl", "in", "let", "loop", "match",
+            "mod", "move", "mut", "pub", "ref", "return", "self", "static", "struct", "super", "trait", "true", "type", "unsafe", "use", "where",
+            "while", "async", "await", "dyn", "_"}
+
+
+def alpha_back(ref, cur):
+    """{new: old} if `cur` is `ref` with local variables renamed consistently and nothing else changed (token-wise); {} if the
+    token streams are identical; None otherwise."""
+    try:
+        tr, tc = tokenize(ref), tokenize(cur)
+    except Undecided:
+        return None
+    if len(tr) != len(tc):
+        return None
+    fwd, bwd = {}, {}
+    for a, b in zip(tr, tc):
+        if a.kind != b.kind:
+            return None
+        if a.kind != "ident":
+            if a.text != b.text:
+                return None
+            continue
+        if fwd.setdefault(a.text, b.text) != b.text or bwd.setdefault(b.text, a.text) != a.text:
+            return None
+    ren = {o: n for o, n in fwd.items() if o != n}
+    if not ren:
+        return {}
+    ref_idents = {t.text for t in tr if t.kind == "ident"}
+    try:
+        bo = _body_open_index(tr)
+    except Exception:
+        return None
+    for old, new in ren.items():
+        if not _SNAKE.match(old) or not _SNAKE.match(new) or old in _RUST_KW or new in _RUST_KW:
+            return None
+        if new in ref_idents:               # the new name must be fresh: no capture
+            return None
+        occ = [i for i, t in enumerate(tr) if t.kind == "ident" and t.text == old]
+        for i in occ:
+            prev = tr[i - 1].text if i > 0 else ""
+            nxt = tr[i + 1].text if i + 1 < len(tr) else ""
+            if prev in (".", "::", "fn", "'") or nxt in ("(", "::", "!"):
+                return None                 # a method / path / function / macro name, not (only) a local
+            if i > bo:
+                if (prev in ("{", ",") and nxt == ":") or (prev == "{" and nxt in (",", "}")) or (prev == "," and nxt == "}"):
+                    return None             # could be a field name of a struct literal / pattern
+        # the first occurrence must bind the name: let / for / closure parameter / function parameter
+        i = occ[0]
+        if i < bo:
+            continue                        # in the signature: a parameter
+        j = i - 1
+        while j > bo and (tr[j].kind == "ident" and tr[j].text not in ("let", "for", "in", "if", "while", "match", "return", "move")
+                          or tr[j].text in (",", "(", ")", "&", "::")):
+            j -= 1
+        if tr[j].text not in ("let", "for", "|"):
+            return None
+    return {n: o for o, n in ren.items()}
